@@ -107,7 +107,11 @@ class FakeS3(httpx.AsyncBaseTransport):
             hdrs = {}
             if fault.get('retry_after') is not None:
                 hdrs['retry-after'] = str(fault['retry_after'])
-            return httpx.Response(fault['status'], headers=hdrs, content=b'<Error><Code>Injected</Code></Error>', request=request)
+            body = {'xml': b'<?xml version="1.0" encoding="UTF-8"?><Error><Code>ServiceUnavailable</Code><Message>injected</Message></Error>',
+                    'html': b'<html><head><title>502 Bad Gateway</title></head><body><center><h1>502 Bad Gateway</h1></center><hr>nginx</body></html>',
+                    'text': b'upstream connect error or disconnect/reset before headers', 'json': b'{"error": "rate limited"}',
+                    'empty': b''}[fault.get('body', 'xml')]
+            return httpx.Response(fault['status'], headers=hdrs, content=body, request=request)
 
         q = urllib.parse.parse_qsl(query_b.decode('ascii', 'replace'), keep_blank_values=True,
                                    encoding='utf-8', errors='surrogateescape')
